@@ -132,6 +132,69 @@ func (tr *tracer) flag(o obsState) {
 	}
 }
 
+// argFields copies the arguments of a spec action into its event.
+func argFields(ev map[string]any, act Act, renewal func() map[string]int64) {
+	switch act.Op {
+	case "BeginFree":
+		ev["idx"], ev["pf"], ev["cf"] = orEmpty(act.Idx), act.Pf, act.Cf
+	case "BeginAppend":
+		ev["secs"], ev["pf"], ev["cf"] = orEmpty(act.Secs), act.Pf, act.Cf
+	case "Round2Free", "Round2Append", "Round2Repl":
+		ev["sf"] = act.Sf
+	case "Round2Renew":
+		ev["sf"] = act.Sf
+		ev["x"] = renewal()
+	case "BeginRoots":
+		ev["off"], ev["len"], ev["pf"], ev["sf"] = act.Off, act.Len, act.Pf, act.Sf
+	case "BeginFund":
+		ev["deps"], ev["sf"], ev["af"] = orEmpty(act.Deps), act.Sf, orOK(act.Af)
+		if len(act.Raw) > 0 {
+			ev["raw"] = act.Raw
+		}
+	case "BeginRepl":
+		ev["kind"], ev["accs"], ev["target"], ev["cf"], ev["af"] = act.Kind, orEmpty(act.Accs), act.Target, act.Cf, orOK(act.Af)
+	case "BeginAttach", "BeginDetach":
+		ev["b"] = orEmpty(act.B)
+	case "BeginRead", "BeginWrite":
+		ev["a"], ev["sec"], ev["units"], ev["tf"], ev["pf"] = act.A, act.Sec, act.Units, act.Tf, act.Pf
+	case "BeginVerify":
+		ev["a"], ev["sec"], ev["tf"], ev["pf"] = act.A, act.Sec, act.Tf, act.Pf
+	case "BeginBalance":
+		ev["a"] = act.A
+	case "BeginRenew":
+		ev["kind"], ev["pf"], ev["cf"], ev["rf"], ev["na"], ev["nc"] = act.Kind, act.Pf, act.Cf, act.Rf, act.NA, act.NC
+	}
+}
+
+// emitRaw logs an event of a CONCURRENT history: the harness has put the events of the two renters
+// into a linearization order; calls cannot be attributed to one of two handlers running at the
+// same time ("nc"), and the state is observed only at the end, when both have finished.
+func (tr *tracer) emitRaw(act Act, out Outcome, final bool) {
+	if tr.rpc == nil {
+		tr.rpc = map[int]string{}
+	}
+	if x := rpcName(act); x != "" {
+		tr.rpc[act.S] = x
+	}
+	ev := map[string]any{"op": act.Op, "s": act.S, "reply": out.Reply, "calls": []string{}, "nocalls": true, "rpc": tr.rpc[act.S]}
+	argFields(ev, act, func() map[string]int64 { return map[string]int64{"hout": 0, "coll": 0, "ph": 0, "eh": 0, "dur": 1} })
+	o, ok := obsState{Roots: []int{}, Acct: map[string]int64{}, Pool: map[string]int64{}, Att: map[string][]string{}}, false
+	if final {
+		o, ok = tr.observe()
+		if ok {
+			tr.flag(o)
+		}
+	}
+	ev["obs"], ev["st"] = ok, o
+	if out.Why != "" {
+		ev["why"] = out.Why
+	}
+	tr.tw.Emit(ev)
+	tr.n++
+	tr.hist = append(tr.hist, hx.JSON(act))
+	tr.res.Eval("")
+}
+
 // renewalFields: the host's part of the renewal (valid host payout, total collateral, heights,
 // duration) as handed to Contractor.RenewV2Contract during this step; zeros if it was not called.
 func (tr *tracer) renewalFields(out Outcome) map[string]int64 {
@@ -205,36 +268,7 @@ func (tr *tracer) do(act Act) Outcome {
 		tr.rpc[act.S] = x
 	}
 	ev := map[string]any{"op": act.Op, "s": act.S, "reply": out.Reply, "calls": orEmpty(out.Calls), "rpc": tr.rpc[act.S]}
-	switch act.Op {
-	case "BeginFree":
-		ev["idx"], ev["pf"], ev["cf"] = orEmpty(act.Idx), act.Pf, act.Cf
-	case "BeginAppend":
-		ev["secs"], ev["pf"], ev["cf"] = orEmpty(act.Secs), act.Pf, act.Cf
-	case "Round2Free", "Round2Append", "Round2Repl":
-		ev["sf"] = act.Sf
-	case "Round2Renew":
-		ev["sf"] = act.Sf
-		ev["x"] = tr.renewalFields(out)
-	case "BeginRoots":
-		ev["off"], ev["len"], ev["pf"], ev["sf"] = act.Off, act.Len, act.Pf, act.Sf
-	case "BeginFund":
-		ev["deps"], ev["sf"], ev["af"] = orEmpty(act.Deps), act.Sf, orOK(act.Af)
-		if len(act.Raw) > 0 {
-			ev["raw"] = act.Raw
-		}
-	case "BeginRepl":
-		ev["kind"], ev["accs"], ev["target"], ev["cf"], ev["af"] = act.Kind, orEmpty(act.Accs), act.Target, act.Cf, orOK(act.Af)
-	case "BeginAttach", "BeginDetach":
-		ev["b"] = orEmpty(act.B)
-	case "BeginRead", "BeginWrite":
-		ev["a"], ev["sec"], ev["units"], ev["tf"], ev["pf"] = act.A, act.Sec, act.Units, act.Tf, act.Pf
-	case "BeginVerify":
-		ev["a"], ev["sec"], ev["tf"], ev["pf"] = act.A, act.Sec, act.Tf, act.Pf
-	case "BeginBalance":
-		ev["a"] = act.A
-	case "BeginRenew":
-		ev["kind"], ev["pf"], ev["cf"], ev["rf"], ev["na"], ev["nc"] = act.Kind, act.Pf, act.Cf, act.Rf, act.NA, act.NC
-	}
+	argFields(ev, act, func() map[string]int64 { return tr.renewalFields(out) })
 	o, ok := tr.observe()
 	ev["obs"], ev["st"] = ok, o
 	if strings.HasSuffix(tr.rpc[act.S], "-dup") && act.Op == "BeginRepl" {
